@@ -120,6 +120,8 @@ type machine struct {
 	stubs       map[string]*stubState
 	model       map[string]uint64
 	pending     []pendingObl
+	ghostIDs    int
+	splitBlocks bool
 	lastIf      *ssa.If
 	flushing    bool
 	oblSeq      int
